@@ -238,13 +238,43 @@ def run_global(shard):
     return acc
 
 
+FIRST_CALLS = ['Element.number', 'Element.symbol', 'class.number', 'class.symbol', 'instance.number', 'instance.symbol', 'query.number', 'queryclass.number', 'dynamic.number', 'smiles']
+
+
+def run_first_call(shard):
+    """lookup tables are built lazily by the first call: a fresh interpreter per entry point used first, then every number 1..118 through two entry points"""
+    import json
+    import os
+    import subprocess
+    import sys
+    from .. import boot
+    first, = shard
+    acc = Acc()
+    acc.states += 1
+    acc.transitions += 2 * 118
+    env = dict(os.environ, PYTHONDONTWRITEBYTECODE='1')
+    p = subprocess.run([sys.executable, os.path.join(boot.VERIF, 'vf', 'props', 'c18_worker.py'), boot.VERIF, first], capture_output=True, text=True, env=env)
+    if p.returncode:
+        acc.fail('lookup worker crashed :: first call %s' % first, first=first, stderr=p.stderr[-600:])
+        return acc
+    for msg in json.loads(p.stdout.strip().split('\n')[-1]):
+        acc.fail('symbol <-> number lookup inconsistent when the first lookup of the process is %s' % first, first=first, what=msg)
+    acc.outcomes[first] += 1
+    return acc
+
+
 def plan(tier, seed):
     return [Stage('global table', run_global, [0], 'element set, number range, rejected lookups, table lengths'),
             Stage('per element', run_elements, [(z, z + 1) for z in range(1, 119)],
-                  'all 118 elements x (None + every tabulated isotope) x charge -4..4 x radical; H in {None,0..6}')]
+                  'all 118 elements x (None + every tabulated isotope) x charge -4..4 x radical; H in {None,0..6}'),
+            Stage('first-call order of the lazy lookup tables', run_first_call, [(f,) for f in FIRST_CALLS],
+                  'a fresh interpreter per entry point used first (Element / element class / instance / query / dynamic / reader) x every number 1..118 through two entry points')]
 
 
 def replay(rec):
     z = rec.get('z')
+    if rec.get('first'):
+        acc = run_first_call((rec['first'],))
+        return [f for f in acc.fails if f['key'] == rec['key']]
     acc = run_global([0]) if z is None else run_elements((z, z + 1))
     return [f for f in acc.fails if f['key'] == rec['key']]
